@@ -159,14 +159,21 @@ def run(chk):
             for sc in scopes:
                 sel = [n for n in ast.walk(sc.node) if isinstance(n, ast.Call) and ast.unparse(n.func).split(".")[-1] == "take" and n.args and
                        isinstance(n.args[0], ast.Name)]
+                if not sel:
+                    # the same selection spelt freqs[indices]: a name indexed by the name the argmax was assigned to
+                    amn = {n.targets[0].id for n in ast.walk(sc.node) if isinstance(n, ast.Assign) and isinstance(n.targets[0], ast.Name) and
+                           isinstance(n.value, ast.Call) and ast.unparse(n.value.func).split(".")[-1] == "argmax"}
+                    sel = [type("S", (), {"args": [n.value], "lineno": n.lineno, "col_offset": n.col_offset, "node": n})() for n in ast.walk(sc.node)
+                           if isinstance(n, ast.Subscript) and isinstance(n.value, ast.Name) and isinstance(n.slice, ast.Name) and n.slice.id in amn]
                 for tcall in sel[:1]:
                     F = tcall.args[0].id
                     defs = [n for n in ast.walk(sc.node) if isinstance(n, ast.Assign) and len(n.targets) == 1 and isinstance(n.targets[0], ast.Name) and
                             n.targets[0].id == F]
                     nflip = sum(1 for d in defs for x in ast.walk(d.value) if isinstance(x, ast.Call) and
-                                ast.unparse(x.func) in ("np.flip", "np.flipud", "numpy.flip", "numpy.flipud"))
+                                (ast.unparse(x.func) in ("np.flip", "np.flipud", "numpy.flip", "numpy.flipud") or
+                                 (ast.unparse(x.func) in ("np.arange", "numpy.arange") and len(x.args) == 3 and ast.unparse(x.args[2]) == "-1")))
                     chk.ob("R-ST-AXIS", c + "{axis reversed}", "the frequency table is reversed once (rows are Nyquist-first)", nflip % 2 == 1,
-                           derived="%d reversal(s) in the definition of `%s`" % (nflip, F), loc=sc.loc(tcall), stmt=norm_stmt(tcall))
+                           derived="%d reversal(s) in the definition of `%s`" % (nflip, F), loc=sc.loc(tcall), stmt=norm_stmt(getattr(tcall, "node", tcall)))
             # the frequency axis itself: arange(1, points+1) / (2 * points * dt), points = number of rows
 
             def unflip(v):
@@ -177,7 +184,22 @@ def run(chk):
                     isinstance(unflip(n.value), (ast.BinOp, ast.Call)) and "arange" in ast.unparse(n.value)]
             form = None
             if len(fdef) == 1:
-                form = Normaliser().poly(unflip(fdef[0].value)).subst_atoms(lambda a: "dt" if a.endswith(".dt") or a == "dt" else a).canon()
+                # a reversal commutes with the element-wise scaling, so where it is written does not matter to the form (that there is
+                # exactly one is the obligation above)
+                class _NoFlip(ast.NodeTransformer):
+                    def visit_Call(self, n):
+                        self.generic_visit(n)
+                        if ast.unparse(n.func) in ("np.flip", "np.flipud", "numpy.flip", "numpy.flipud") and n.args:
+                            return n.args[0]
+                        if ast.unparse(n.func) in ("np.arange", "numpy.arange") and len(n.args) == 3 and not n.keywords and \
+                                ast.unparse(n.args[2]) == "-1" and isinstance(n.args[1], ast.Constant) and type(n.args[1].value) is int:
+                            # integers counted down, A, ..., B+1 (A is a length: the {points} obligation): arange(B + 1, A + 1) reversed
+                            return ast.Call(func=n.func, args=[ast.Constant(value=n.args[1].value + 1),
+                                                               ast.BinOp(left=n.args[0], op=ast.Add(), right=ast.Constant(value=1))], keywords=[])
+                        return n
+                import copy as _copy
+                bare = _NoFlip().visit(_copy.deepcopy(fdef[0].value))
+                form = Normaliser().poly(bare).subst_atoms(lambda a: "dt" if a.endswith(".dt") or a == "dt" else a).canon()
             chk.ob("R-ST-AXIS", c + "{axis form}", "frequencies = arange(1, points + 1) / (2 * points * dt)", form == "1/2*dt^-1*np.arange(1, 1 + 1*points)*points^-1",
                    derived="%s" % form, loc=r.fi.loc(fdef[0]) if fdef else r.fi.loc(), inconclusive=not fdef)
         pts = [n for sc in scopes for n in ast.walk(sc.node) if isinstance(n, ast.Assign) and isinstance(n.targets[0], ast.Name) and n.targets[0].id == "points"]
@@ -200,8 +222,11 @@ def run(chk):
 def _skeleton_from(r, q):
     sk = []
     facts = {}
+    mine = {id(e) for k_ in ("lib-call", "subscript") for e in r.events(k_, q)}      # also what new local helpers do on its behalf
     for e in r.I.events:
-        if e.kind == "lib-call" and e.fn == q:
+        if id(e) not in mine:
+            continue
+        if e.kind == "lib-call":
             short = e.name.split(".")[-1]
             if short == "fft":
                 n = e.kwargs.get("n") or (e.args[1] if len(e.args) > 1 else None)
@@ -221,9 +246,11 @@ def _skeleton_from(r, q):
                 sk.append(("ifft", facts["ifft.axis"], facts["ifft.window"], repr(e.args[0].shape)))
             elif short in ("flipud", "flip"):
                 sk.append(("flipud",))
-        elif e.kind == "subscript" and e.fn == q and "toeplitz" in e.base.tags and e.comps and e.comps[0].kind == K_SLICE:
+        elif e.kind == "subscript" and "toeplitz" in e.base.tags and e.comps and e.comps[0].kind == K_SLICE:
             lo, up, _ = e.comps[0].items
-            facts["rows"] = (repr(lo.sym) if lo is not None else None, repr(up.sym) if up is not None else None)
+            nrows = e.base.shape[0] if (e.base.shape is not None and len(e.base.shape) >= 1) else None
+            # an open upper bound is the matrix's own row count (x[1:] of an m-row matrix is x[1:m])
+            facts["rows"] = (repr(lo.sym) if lo is not None else None, repr(up.sym) if up is not None else (repr(nrows) if nrows is not None else None))
             sk.append(("rows",) + facts["rows"])
     return sk, facts
 
